@@ -1024,16 +1024,39 @@ Proof.
     intros ->. apply Nb. exact Ai.
 Qed.
 
-(* what the reader fast paths know: they are taken only after the tail test found the list empty, and then everything
-   pushed so far has been acquired already -- so the two theorems above order the fast-path item after every barrier
-   pushed before the tail test *)
+(* what the fast paths know: all three (dispatch_sync, dispatch_barrier_sync, the dispatch_async redirect) are taken only
+   after their tail test found the list empty, and then everything pushed so far has been acquired already -- so the two
+   theorems above order the fast-path item after every barrier pushed before the tail test, and a fast-path barrier after
+   everything pushed before its tail test *)
 Theorem tail_test_sees_all_acquired W s t s' : 2 <= W <= 4094 -> reach W s -> gstep W s t = Some s' ->
-  ((pcs s t = S_tail /\ pcs s' t = S_rsv 0) \/ (exists q ovr, pcs s t = A_tail false q ovr /\ pcs s' t = A_acq q ovr)) ->
+  ((pcs s t = S_tail /\ pcs s' t = S_rsv 0) \/ (pcs s t = B_tail /\ pcs s' t = B_acq) \/
+   (exists q ovr, pcs s t = A_tail false q ovr /\ pcs s' t = A_acq q ovr)) ->
   forall x, In x (pushed s) -> acquired s x.
 Proof.
   intros HW R Hs Hc x Hx. destruct (inv2_reach W s HW R) as [_ [O _]]. apply (popped_acquired s x O).
   assert (El : lst s = []).
-  { unfold gstep in Hs. destruct Hc as [[E E']|(q & ovr & E & E')]; rewrite E in Hs; apply Some_inj in Hs; subst s';
+  { unfold gstep in Hs. destruct Hc as [[E E']|[[E E']|(q & ovr & E & E')]]; rewrite E in Hs; apply Some_inj in Hs; subst s';
       gcbn in E'; rewrite upd_same in E'; destruct (lst s); try reflexivity; cbn in E'; discriminate. }
   pose proof (q_seq s O) as Q. rewrite El in Q. cbn in Q. rewrite app_nil_r in Q. rewrite in_rev, <- Q, <- in_rev. exact Hx.
+Qed.
+
+Lemma later_trans W s1 s2 s3 : later W s1 s2 -> later W s2 s3 -> later W s1 s3.
+Proof. intros A B. induction B as [|s s' a s'' L IH Hs]; [exact A|]. exact (later_step W s1 s' a s'' (IH A) Hs). Qed.
+
+(* the real-time order across the fast paths, spelled out: x was pushed before thread t made the tail test of a fast path
+   (so before the call of t began, if x's submission had returned by then).  Whatever is acquired after that test --
+   in particular the item of t's own call -- is acquired only after x has finished when x is a barrier; and a barrier
+   acquired after that test (dispatch_barrier_sync of t) is acquired only after x has finished, whatever x is. *)
+Theorem fastpath_realtime_order W s t s' s2 x j : 2 <= W <= 4094 -> reach W s -> valid_tid t -> gstep W s t = Some s' ->
+  ((pcs s t = S_tail /\ pcs s' t = S_rsv 0) \/ (pcs s t = B_tail /\ pcs s' t = B_acq) \/
+   (exists q ovr, pcs s t = A_tail false q ovr /\ pcs s' t = A_acq q ovr)) ->
+  later W s' s2 -> In x (pushed s) -> acquired s2 j -> ~ acquired s j ->
+  (kinds s x = true \/ kinds s2 j = true) -> In x (finished s2).
+Proof.
+  intros HW R Vt Hs Hc L Hx Aj Nj K.
+  pose proof (tail_test_sees_all_acquired W s t s' HW R Hs Hc x Hx) as Ax.
+  assert (L0 : later W s s2) by (apply (later_trans W s s' s2); [|exact L]; apply (later_step W s s (AStep t) s' (later_refl W s)); split; assumption).
+  destruct K as [K|K].
+  - exact (later_items_wait_for_barrier W s s2 x j HW R L0 Ax K Aj Nj).
+  - exact (barrier_waits_for_earlier_items W s s2 x j HW R L0 Ax Aj K Nj).
 Qed.
